@@ -10,7 +10,71 @@ before vs. at every callback and after every stage run (global, legalize, detail
 callbacks; runs ending in exceptions thrown by callbacks, by infeasible legalization, by rejected parameters): this is
 what would catch a write to the circuit from inside an algorithm, which the export theorems cannot see."""
 import json
-from tools import common
+import os
+from tools import common, circuit_access
+
+GEN = os.path.join(common.COQ, "CircuitAccess_gen.v")
+STUB = """(* GENERATED: tools/circuit_access.py could NOT translate the tree under check: %s *)
+From Coq Require Import List String ZArith.
+Import ListNotations.
+Require Import CV.CircuitAccess.
+Local Open Scope string_scope.
+Definition circuit_uses : list cuse := [ mkU "translator" UUnknown "TRANSLATOR FAILED" 0 ].
+"""
+PLACEMENT = ("cellX_", "cellY_", "cellOrientation_")
+FLAGS = ("hasCellSizeUpdate_", "hasNetUpdate_")
+MODELLED = {("GlobalPlacer::exportPlacement", "cellX_"), ("GlobalPlacer::exportPlacement", "cellY_"),
+            ("Legalizer::exportPlacement", "cellX_"), ("Legalizer::exportPlacement", "cellY_"), ("Legalizer::exportPlacement", "cellOrientation_"),
+            ("DetailedPlacement::exportPlacement", "cellX_"), ("DetailedPlacement::exportPlacement", "cellY_"),
+            ("DetailedPlacement::exportPlacement", "cellOrientation_")}
+
+
+def regenerate_access():
+    """route-1 translator: table of every use of a mutable Circuit in the algorithms, before the proof build"""
+    try:
+        uses, nfun, nsrc = circuit_access.translate(common.REPO)
+        circuit_access.write_gen(GEN, circuit_access.coq_text(uses, nfun, nsrc))
+        return uses, nfun, None
+    except circuit_access.TranslateError as e:
+        circuit_access.write_gen(GEN, STUB % str(e).replace("*)", "* )")[:1500])
+        return None, 0, str(e)
+
+
+def offending_uses(uses):
+    """independent replica of CircuitAccess.circuit_uses_okb, used only to NAME what the Coq theorem rejects"""
+    def cls(f):
+        return f.split("::")[0] if "::" in f else ""
+    def reach(start):
+        seen = list(start)
+        changed = True
+        while changed:
+            changed = False
+            for g in list(seen):
+                for fn, kind, name, line in uses:
+                    if fn != g:
+                        continue
+                    nxt = [name] if kind == "UPass" else [u[0] for u in uses if cls(u[0]) == cls(g)] if kind == "UStore" else []
+                    for h in nxt:
+                        if h not in seen:
+                            seen.append(h); changed = True
+        return seen
+    r_all = reach(["GlobalPlacer::place", "DetailedPlacer::place", "DetailedPlacer::legalize"])
+    r_glob = reach(["GlobalPlacer::place"])
+    bad = []
+    for fn, kind, name, line in uses:
+        if kind in ("UOther", "UCallNC", "UUnknown"):
+            bad.append("%s line %d: %s %s (not a read, a hand-over or a modelled write)" % (fn, line, kind, name))
+        elif kind == "UWrite" and name not in FLAGS:
+            if name not in PLACEMENT:
+                bad.append("%s line %d: writes Circuit::%s, which no placement stage may change" % (fn, line, name))
+            elif (fn, name) not in MODELLED and fn in r_all:
+                bad.append("%s line %d: writes Circuit::%s outside the three modelled export functions and is reachable from a stage entry point" % (fn, line, name))
+            elif name == "cellOrientation_" and fn in r_glob:
+                bad.append("%s line %d: writes an orientation and is reachable from GlobalPlacer::place" % (fn, line))
+    for fn, f in sorted(MODELLED):
+        if fn not in r_all or not any(u[0] == fn and u[1] == "UWrite" and u[2] == f for u in uses):
+            bad.append("modelled write %s -> %s is not in the table / not reachable: the model of Api.v no longer describes the source" % (fn, f))
+    return bad
 
 LEVEL = "proof"
 EX_FORMAT = "EX kind(0 global,1 legalizer,2 detailed) nrows (minX maxX minY maxY orient)* ncells (x y w h orient pol fixed obs)* m entries (global: x2 y2 in half units; legalizer: placed x y o; detailed: cellIndex x y o)"
@@ -128,6 +192,7 @@ def circuit_features(line):
 
 
 def run(ctx):
+    uses, nfun, terr = regenerate_access()
     proof_ok, proof = common.proof_status(ctx, "C03")
     harness = common.build_harness("api")
     driver = common.build_driver("api")
@@ -154,17 +219,33 @@ def run(ctx):
         if crashed_ex:
             ctx.violation("the export harness got no result for %d cases" % len(crashed_ex),
                           {"broken": "harness runs (export functions)", "first": {"case": crashed_ex[0][0], "output": crashed_ex[0][1]}}, found_input=False)
-        if not proof_ok:
-            ctx.violation("proof obligations of Properties_C03.v do not check", {"broken": "Properties_C03.v", "detail": proof}, found_input=False)
+        if terr is not None:
+            ctx.violation("tools/circuit_access.py cannot translate the tree under check (%s): the static part of C03 is not established; the dynamic frame check "
+                          "found no violating input" % terr[:300],
+                          {"broken": "tools/circuit_access.py -> coq/CircuitAccess_gen.v -> c03_algorithms_write_only_through_exports", "detail": terr}, found_input=False)
+        elif not proof_ok:
+            bad = offending_uses(uses)
+            if bad:
+                ctx.violation("theorem c03_algorithms_write_only_through_exports does not hold for the table generated from this tree: %s; the dynamic frame check of %d "
+                              "exposed states found no violating input" % (bad[0], dist["exposed_states"]),
+                              {"broken": "c03_algorithms_write_only_through_exports (Properties_C03.v) over coq/CircuitAccess_gen.v", "offending_uses": bad[:20], "detail": proof},
+                              found_input=False)
+            else:
+                ctx.violation("proof obligations of Properties_C03.v do not check", {"broken": "Properties_C03.v", "detail": proof}, found_input=False)
         if len(crashed_fr) * 20 > max(1, len(fr)):
             ctx.violation("no outcome (abort/crash inside a placement call) for %d of %d stage-run cases: the dynamic frame check cannot be established"
                           % (len(crashed_fr), len(fr)), {"broken": "harness runs (stage runs)", "first": {"case": crashed_fr[0][0], "output": crashed_fr[0][1]}}, found_input=False)
     cov = dict(proof)
     cov.update({"trusted_base": common.TRUSTED_BASE + [
-                    "the export theorems are about the three export functions; that the algorithms write to the Circuit only through them is NOT proved: it is validated by the dynamic frame check of every stage run of this check (label: validated)"],
+                    "tools/circuit_access.py (translator, clang++ 14 -ast-dump=json): the table of uses of a mutable Circuit in src/place_global, src/place_detailed and src/*.cpp; "
+                    "C++ const-correctness is trusted for uses through const Circuit& (const_cast/mutable are reported by the translator); theorem "
+                    "c03_algorithms_write_only_through_exports is about that table, regenerated on this run",
+                    "that the algorithms write to the Circuit only through the three modelled export functions is established statically over that table and, independently, validated "
+                    "by the dynamic frame check of every stage run of this check"],
                 "evaluations": len(ex) + dist["exposed_states"], "distinct_nontrivial": len(nontriv_ex) + len(nontriv_fr),
                 "export_cases": len(ex), "export_kinds": kinds, "stage_run_cases": len(fr), "stage_runs": dist,
                 "labels": {"export-function frame theorem": "proved", "exact tie of the export models": "correspondence on the cases of this run",
+                           "algorithms write only through the export functions": "theorem over the access table regenerated from the source of this run (translator trusted)",
                            "dynamic frame check of stage runs": "validated (proved checker frame_okb evaluated per exposed state)"},
                 "rule": "export cases: random circuits (1-10 cells, ~40% fixed incl. first/last/consecutive, all orientations) and random internal vectors (legalizer lists shorter/longer "
                         "than the movable cells so that the mismatch exception is reached, detailed cellIndex in [-1, n-1] with repeats, global coordinates in half units); non-trivial = "
@@ -173,6 +254,10 @@ def run(ctx):
                         "parameter sets, 20% library-default parameters (hundreds of callbacks), efforts 1-9; every callback state and the final state compared with the state before the call; "
                         "non-trivial = a cell moved and the circuit has a fixed cell; distinct = distinct case lines",
                 "no_outcome_stage_cases": len(crashed_fr),
+                "static_access_table": {"uses": len(uses or []), "function_definitions_scanned": nfun,
+                                        "by_kind": {k: sum(1 for u in (uses or []) if u[1] == k) for k in sorted(set(u[1] for u in (uses or [])))},
+                                        "writers": sorted(set("%s -> %s" % (u[0], u[2]) for u in (uses or []) if u[1] == "UWrite")),
+                                        "translator_error": terr},
                 "samples": [ex[0][:300], ex[len(ex) // 2][:300], fr[0][:400], fr[-1][:400]],
                 "model_vs_impl_differences": len(mism), "impl_outputs_violating_statement": len(ofail_ex) + len(ofail_fr)})
     return ctx.finish(LEVEL, cov, ["export models tied to the three export functions by exact comparison on the cases of this run",
